@@ -105,6 +105,19 @@ class Context(object):
         """records: list of dicts each with an 'id'. Returns list of (id, clause) rejected."""
         if not records:
             raise MachineryError('no records to validate for %s' % module)
+        # inputs are generated inside TLC's integer range; a value outside it can only come from the
+        # code under test (e.g. -1 cast to uint32) and is a violation, not a reason to stop
+        ok = []
+        for r in records:
+            try:
+                tlc.check_tlc_value(r)
+                ok.append(r)
+            except MachineryError as e:
+                self.violation('unrepresentable', 'the code under test produced a value outside the '
+                               'range the specification can represent: %s' % e, dict(record=r))
+        records = ok
+        if not records:
+            return []
         path = self.work / ('trace_%s_%d.ndjson' % (module, len(self.parts)))
         n = tlc.write_trace(path, records)
         res, rejected = tlc.validate(module, cfg, self.work, path, n, **kw)
